@@ -310,10 +310,16 @@ def make_pinger ():
       self._w = pair[1]
       self._r = pair[0]
       assert os is not None
+      # A ping must never block: the thread that pings may be the only one
+      # that ever pongs.
+      os.set_blocking(self._w, False)
 
     def ping (self):
       if os is None: return #TODO: Is there a better fix for this?
-      os.write(self._w, b' ')
+      try:
+        os.write(self._w, b' ')
+      except BlockingIOError:
+        pass # Pipe is full, so a wakeup is pending anyway
 
     def fileno (self):
       return self._r
